@@ -239,13 +239,15 @@ structure PkPlan where
   lastrowid : Bool      -- compiler.postfetch_lastrowid
 deriving Repr, DecidableEq
 
-def pkPlan (k : PkKind) (supplied : Bool) (c : PkCtx) : PkPlan :=
+/-- `viaValues`: the key was given as a non-NULL value in `.values()` (a BindParameter, for
+    which `_append_param_parameter` asks for the generated key only when the value is None) -/
+def pkPlan (k : PkKind) (supplied : Bool) (c : PkCtx) (viaValues : Bool := false) : PkPlan :=
   let ir := implicitReturning k c
   let plr := postfetchLastrowid0 k c && !ir
   if supplied then
     -- _append_param_parameter: a literal value for the autoincrement column still asks
     -- for the generated key where NULL would autoincrement
-    let auto := c.nullPkAutoincrements && (k == .autoinc)
+    let auto := c.nullPkAutoincrements && (k == .autoinc) && !viaValues
     { inStatement := true, bound := true, prefetch := false, inlineSql := false,
       inReturning := auto && !plr && ir, lastrowid := auto && plr }
   else if needPks c then
